@@ -35,7 +35,19 @@ ASSUMPTIONS = [
     "interchange: that equal factor spaces give equal column spaces of the design is the "
     "tensor-product argument of DESIGN.md (trusted mathematics); it is *tested* here by exact "
     "rational Gaussian elimination on complete-factorial data, on formulas whose terms need one "
-    "coded subterm each (outside the known defects D6-D9, D20 of C03/C04)",
+    "coded subterm each (outside the known defects D6-D9, D20 of C03/C04); a second family puts "
+    "numeric:factor interactions N:F next to purely numeric terms over x, z, w (main effects, "
+    "interactions, triple products) that equal N (margin present), strictly contain N, are strictly "
+    "contained in N or overlap N (margin present or absent), with and without the intercept and the "
+    "main effects of the factors; numeric columns are small integers, so every entry is an exact integer",
+    "calling scope: every fourth design case and every sixth interchange case is run once more from a "
+    "scope that binds names of the formula built-ins (formulae.transforms.TRANSFORMS and "
+    "formulae.categorical.ENCODINGS: C, T, S, Sum, Treatment, ... ; at least one name the formula uses) "
+    "to unrelated objects (numbers, strings, None, list, arrays, numpy functions, a user class and an "
+    "instance of it) and stateless look-alike functions (values -> strings, values -> values, a constant "
+    "column, integer codes), as locals or globals of a generated caller function or in extra_namespace; "
+    "the built-ins win, so the shadowed run is judged by exactly the request (model, Spec predicates) of "
+    "the clean run; names that are not registry names (data columns, level-list names) are never shadowed",
 ]
 TRUSTED = ["numpy integer/float arithmetic on 0/±1 matrices is exact",
            "fractions.Fraction Gaussian elimination (harness/c13.py:rank)"]
@@ -121,6 +133,119 @@ def levels_container(sp):
 
 def sl_(vs):
     return None if vs is None else [str(v) for v in vs]
+
+
+# ------------------------------------------------------------------------------------------------
+# shadowed calling scopes: the names of the formula built-ins (formulae.transforms.TRANSFORMS,
+# formulae.categorical.ENCODINGS: C, T, S, Sum, Treatment, ...) bound to unrelated objects in the scope
+# that calls design_matrices.  The built-ins win (Call.set_type), so the expected factor never depends
+# on these bindings: a shadowed case is judged by exactly the request of its clean twin.
+# ------------------------------------------------------------------------------------------------
+def _as_text(values, *a, **k):
+    """a user's own helper that happens to be called like a built-in: 'as string'"""
+    import numpy as np
+    return np.asarray(values).astype(str)
+
+
+def _same(values, *a, **k):
+    """a stateless look-alike: gives the values back"""
+    return values
+
+
+def _sevens(*a, **k):
+    import numpy as np
+    first = a[0] if a else next(iter(k.values()))
+    return np.full(len(first), 7.0)
+
+
+def _reversed_codes(values, *a, **k):
+    """a user's own 'coding': integer codes in reverse alphabetical order"""
+    import numpy as np
+    v = [str(x) for x in values]
+    order = sorted(set(v), reverse=True)
+    return np.array([order.index(x) for x in v])
+
+
+class _UserClass:
+    """a user's class that happens to be called Sum / Treatment / C ..."""
+
+    def __init__(self, *a, **k):
+        self.args = a
+
+
+def _np(attr):
+    import numpy as np
+    return getattr(np, attr)
+
+
+SHADOW_OBJECTS = {
+    "int 20": lambda n: 20, "float 0.5": lambda n: 0.5, "int n_rows": lambda n: n,
+    "str 'label'": lambda n: "label", "str 'Sum'": lambda n: "Sum", "None": lambda n: None,
+    "list [1, 2, 3]": lambda n: [1, 2, 3], "np.arange(n_rows)": lambda n: _np("arange")(n),
+    "np.eye(2)": lambda n: _np("eye")(2), "np.sum": lambda n: _np("sum"),
+    "function values -> values.astype(str)": lambda n: _as_text,
+    "function values -> values": lambda n: _same,
+    "function -> column of sevens": lambda n: _sevens,
+    "function values -> reversed integer codes": lambda n: _reversed_codes,
+    "user class": lambda n: _UserClass, "user class instance": lambda n: _UserClass(),
+}
+SHADOW_WHERE = ("extra_namespace", "caller_locals", "caller_globals")
+CONTRAST_NAMES = ("C", "T", "S", "Sum", "Treatment")
+
+
+def registry_names():
+    from formulae.categorical import ENCODINGS
+    from formulae.transforms import TRANSFORMS
+    return sorted(set(TRANSFORMS) | set(ENCODINGS))
+
+
+def gen_scope(rng, formula):
+    """-> {"where": ..., "bound": {name: description}}: every name is a registry name; at least one
+    built-in the formula uses is bound (when it uses one), the contrast names more often than the rest"""
+    import re
+    names = registry_names()
+    descs = sorted(SHADOW_OBJECTS)
+    used = [nm for nm in names if re.search(r"(?<![\w.])%s(?![\w])" % re.escape(nm), formula)]
+    picked = [nm for nm in names if rng.random() < (0.6 if nm in CONTRAST_NAMES else 0.2)]
+    if used and not set(used) & set(picked):
+        picked.append(rng.choice(used))
+    if not picked:
+        picked.append(rng.choice(names))
+    return {"where": rng.choice(SHADOW_WHERE), "bound": {nm: rng.choice(descs) for nm in sorted(picked)}}
+
+
+def scope_objects(scope, n_rows):
+    return {nm: SHADOW_OBJECTS[d](n_rows) for nm, d in scope["bound"].items()}
+
+
+def make_builder(scope, ns, n_rows):
+    """design_matrices(formula, data) as called from a scope that binds the names of `scope`
+    (None: the clean scope of this module) with extra_namespace `ns`"""
+    from formulae import design_matrices
+    if scope is None:
+        return lambda formula, data: design_matrices(formula, data, extra_namespace=ns)
+    objs = scope_objects(scope, n_rows)
+    if scope["where"] == "extra_namespace":
+        full = dict(ns)
+        full.update(objs)
+        return lambda formula, data: design_matrices(formula, data, extra_namespace=full)
+    names = sorted(objs)
+    if scope["where"] == "caller_locals":
+        src = "def caller(_dm_, _formula_, _data_, _ns_, _vals_):\n"
+        for i, nm in enumerate(names):
+            src += "    %s = _vals_[%d]\n" % (nm, i)
+        src += "    return _dm_(_formula_, _data_, extra_namespace=_ns_)\n"
+        glob = {}
+    elif scope["where"] == "caller_globals":
+        src = ("def caller(_dm_, _formula_, _data_, _ns_, _vals_):\n"
+               "    return _dm_(_formula_, _data_, extra_namespace=_ns_)\n")
+        glob = dict(objs)
+    else:
+        raise ValueError(scope["where"])
+    exec(src, glob)                                                     # pylint: disable=exec-used
+    caller = glob["caller"]
+    vals = [objs[nm] for nm in names]
+    return lambda formula, data: caller(design_matrices, formula, data, ns, vals)
 
 
 # ------------------------------------------------------------------------------------------------
@@ -307,13 +432,13 @@ def design_formula(case):
 def impl_design(case):
     import numpy as np
     import pandas as pd
-    from formulae import design_matrices
     col = case["col"]
     n = len(col["values"])
     df = pd.DataFrame({"y": [float(i % 3) for i in range(n)], "g": make_column(col)})
     formula, env = design_formula(case)
     try:
-        dm = _quiet(lambda: design_matrices(formula, df, extra_namespace=namespace(env)))
+        build = make_builder(case.get("scope"), namespace(env), n)
+        dm = _quiet(lambda: build(formula, df))
     except Exception as e:  # noqa
         return {"err": type(e).__name__}
     try:
@@ -528,7 +653,20 @@ def gen_design_cases(tier, seed):
         col, levels = gen_column(rng, n, typ, unused=(typ in ("cat", "ocat") and rng.random() < 0.12))
         cases.append({"kind": "design", "col": col, "intercept": rng.random() < 0.6,
                       "spelling": gen_spelling(rng, levels, typ)})
+    cases.extend(shadow_twins(cases, seed, 4))
     return cases
+
+
+def shadow_twins(cases, seed, every):
+    """every `every`-th case once more, called from a scope that binds names of the formula built-ins
+    (the twin carries the scope; expectation, model and specification are those of the clean case)"""
+    twins = []
+    for i, c in enumerate(cases):
+        if (i + seed) % every:
+            continue
+        formula = design_formula(c)[0] if c["kind"] == "design" else c["variant"]["formula"]
+        twins.append(dict(c, scope=gen_scope(rng_for(seed, "c13", "shadow", c["kind"], i), formula)))
+    return twins
 
 
 def alias_groups(tier, seed):
@@ -682,6 +820,100 @@ def gen_interchange(rng):
     return {"factors": factors, "frame": frame, "terms": terms, "intercept": intercept}
 
 
+NUMERIC_NAMES = ["x", "z", "w"]
+
+
+def _subsets(t):
+    return [frozenset(c) for r in range(1, len(t) + 1) for c in itertools.combinations(sorted(t), r)]
+
+
+def gen_interchange_numeric(rng):
+    """numeric:factor interactions next to purely numeric terms (main effects, interactions, higher
+    order products of x, z, w) that share some but not all numeric variables with them: the numeric
+    part N of an interaction N:F is itself a term of the model (margin present: F is coded relative to
+    it) or is not (margin absent: F spans the intercept inside N:F) while a numeric term that strictly
+    contains N, is strictly contained in N or overlaps N is present; with and without the intercept,
+    with and without the main effects of the factors"""
+    nf = rng.choice([1, 1, 2])
+    fnames = ["f", "h"][:nf]
+    factors = {}
+    for name, n in zip(fnames, rng.sample([2, 3, 3, 4], nf)):
+        typ = rng.choice(["str", "str", "int", "cat", "ocat"])
+        levels = rng.sample(range(0, 10), n) if typ == "int" else rng.sample(STR_POOL, n)
+        cats = list(levels)
+        rng.shuffle(cats)
+        factors[name] = {"type": typ, "levels": levels, "categories": cats}
+    numerics = NUMERIC_NAMES[:rng.choice([2, 3, 3])]
+    variables = fnames + numerics
+    for _ in range(50):
+        fam = set()
+        for _ in range(rng.choice([1, 1, 2])):
+            num = frozenset(rng.sample(numerics, rng.choice([1, 1, 2])))        # N
+            cat = frozenset(rng.sample(fnames, rng.choice([1, 1, 2]) if nf == 2 else 1))    # F
+            fam.add(num | cat)
+            # a purely numeric term sharing some but not all numeric variables with N
+            others = [v for v in numerics if v not in num]
+            kinds = ["margin"] + (["superset", "overlap"] if others else []) + (["subset"] if len(num) > 1 else [])
+            for rel in rng.sample(kinds, rng.choice([1, 1, 2]) if len(kinds) > 1 else 1):
+                if rel == "margin":
+                    fam.add(num)
+                elif rel == "superset":
+                    fam.add(num | frozenset(rng.sample(others, rng.randrange(1, len(others) + 1))))
+                elif rel == "subset":
+                    fam.add(frozenset(rng.sample(sorted(num), 1)))
+                else:
+                    keep = rng.sample(sorted(num), rng.randrange(1, len(num) + 1))
+                    if len(keep) == len(num) and len(num) > 1:
+                        keep = keep[:-1]
+                    fam.add(frozenset(keep) | frozenset(rng.sample(others, 1)))
+            if len(cat) == 2 and rng.random() < 0.6:
+                fam.update(num | frozenset([v]) for v in cat)               # lower-order interactions
+        if rng.random() < 0.5:
+            fam.update(frozenset([v]) for v in fnames if rng.random() < 0.7)   # main effects of factors
+        if rng.random() < 0.3:
+            fam.add(frozenset(rng.sample(numerics, 1)))
+        intercept = rng.random() < 0.6
+        terms = sorted(fam, key=lambda t: (len(t), [variables.index(v) for v in sorted(t, key=variables.index)]))
+        terms = [sorted(t, key=variables.index) for t in terms]
+        if single_interval(terms, intercept, factors):
+            break
+    else:
+        terms, intercept = [["x", "z"], [fnames[0], "x"]], True
+    combos = list(itertools.product(*[factors[n]["levels"] for n in fnames]))
+    rows = combos * (3 if nf == 1 else 2)
+    rng.shuffle(rows)
+    frame = {name: [r[i] for r in rows] for i, name in enumerate(fnames)}
+    for v in numerics:
+        frame[v] = [rng.randrange(-4, 9) for _ in rows]
+    frame["y"] = [i % 4 for i in range(len(rows))]
+    return {"factors": factors, "frame": frame, "terms": terms, "intercept": intercept,
+            "numeric_relations": numeric_relations(terms, factors)}
+
+
+def numeric_relations(terms, factors):
+    """how the purely numeric terms M of the model lie to the numeric parts N of its numeric:factor
+    interactions (margin: M = N; superset / subset: strict; overlap: neither, but a shared variable),
+    and "margin_absent" when some N is not a term"""
+    pure = [frozenset(t) for t in terms if not any(v in factors for v in t)]
+    rel = set()
+    for t in terms:
+        num = frozenset(v for v in t if v not in factors)
+        if not num or len(num) == len(t):
+            continue
+        if num not in pure:
+            rel.add("margin_absent")
+        for m in pure:
+            if m == num:
+                rel.add("margin")
+            elif num < m:
+                rel.add("superset")
+            elif m < num:
+                rel.add("subset")
+            elif m & num:
+                rel.add("overlap")
+    return sorted(rel)
+
+
 def gen_coding(rng, name, fac, base):
     """a spelling for the factor; `base` = the reference coding (plain variable, C(k) for integers)"""
     levels = fac["levels"]
@@ -728,13 +960,13 @@ def build_frame(struct):
 
 def impl_interchange(case):
     import numpy as np
-    from formulae import design_matrices
     df = build_frame(case)
     out = {}
     for key in ("base", "variant"):
         formula, env = case[key]["formula"], case[key]["env"]
         try:
-            dm = _quiet(lambda: design_matrices(formula, df, extra_namespace=namespace(env)))
+            build = make_builder(case.get("scope"), namespace(env), len(df))
+            dm = _quiet(lambda: build(formula, df))
             m = _int_matrix(np.asarray(dm.common.design_matrix))
             if m is None:
                 out[key] = {"err": "NonIntegralMatrix"}
@@ -760,6 +992,21 @@ def gen_interchange_cases(tier, seed):
                           "terms": struct["terms"], "intercept": struct["intercept"],
                           "base": {"formula": bf, "env": benv},
                           "variant": {"formula": vf, "env": venv}})
+    # numeric:factor interactions next to purely numeric terms sharing some of their numeric variables
+    rng = rng_for(seed, "c13", "interchange-numeric")
+    for _ in range(60 if tier == "quick" else 600):
+        struct = gen_interchange_numeric(rng)
+        base_cod = {n: gen_coding(rng, n, f, True) for n, f in struct["factors"].items()}
+        bf, benv = interchange_formula(struct, base_cod)
+        for _ in range(3):
+            cod = {n: gen_coding(rng, n, f, False) for n, f in struct["factors"].items()}
+            vf, venv = interchange_formula(struct, cod)
+            cases.append({"kind": "interchange", "factors": struct["factors"], "frame": struct["frame"],
+                          "terms": struct["terms"], "intercept": struct["intercept"],
+                          "numeric_relations": struct["numeric_relations"],
+                          "base": {"formula": bf, "env": benv},
+                          "variant": {"formula": vf, "env": venv}})
+    cases.extend(shadow_twins(cases, seed, 6))
     return cases
 
 
@@ -781,8 +1028,14 @@ def explore(tier, seed, res=None, replay=None):
                 "ordered Categorical columns) through design_matrices, then the prediction path: "
                 "common.evaluate_new_data on the training column, on a longer rearrangement containing "
                 "every level and on a column lacking one level, each row judged to be the contrast row "
-                "of its level; interchange: a design with "
-                "every factor recoded. Non-trivial = at least two levels and the implementation "
+                "of its level; every fourth design case again from a calling scope (caller locals / "
+                "caller globals / extra_namespace) that binds C, T, S, Sum, Treatment and other registry "
+                "names to unrelated objects and look-alike functions (same expectation); interchange: a "
+                "design with every factor recoded, on families of factor / numeric terms closed downwards "
+                "with margins removed and on families with numeric:factor interactions next to purely "
+                "numeric terms (x, z, w; margin, superset, subset, overlap of the numeric part; margin "
+                "present or absent; with and without intercept), every sixth again from a shadowed "
+                "calling scope. Non-trivial = at least two levels and the implementation "
                 "evaluated; distinct by (kind, coding, levels, argument, mode)")
     if replay is not None:
         code_cases = [replay] if replay.get("kind") == "code" else []
@@ -845,6 +1098,10 @@ def explore(tier, seed, res=None, replay=None):
         res.count("design:col:" + c["col"]["type"])
         res.count("design:spelling:" + c["spelling"]["kind"])
         res.count("design:" + ("reduced" if c["intercept"] else "full"))
+        res.count("design:calling_scope:" + ("clean" if "scope" not in c else "shadowed:" + c["scope"]["where"]))
+        for nm in c.get("scope", {}).get("bound", {}):
+            if nm in CONTRAST_NAMES:
+                res.count("design:shadowed_name:" + nm)
         model, spec = an["model"], an["spec"]
         m_ok = "ok" in model
         i_ok = "err" not in io_
@@ -874,11 +1131,16 @@ def explore(tier, seed, res=None, replay=None):
                 finding = FINDING_ALIAS
                 res.known_hit[finding] = res.known_hit.get(finding, 0) + 1
             res.failures.append({"case": c, "impl": io_, "expected": spec,
-                                 "why": "evaluated factor is not what the spelling asks for: " + json.dumps(spec),
+                                 "why": "evaluated factor is not what the spelling asks for"
+                                        + (" (%s, called from a scope binding %s in %s)" % (
+                                            design_formula(c)[0], json.dumps(c["scope"]["bound"], sort_keys=True),
+                                            c["scope"]["where"]) if "scope" in c else "")
+                                        + ": " + json.dumps(spec),
                                  "finding": finding})
         if i_ok and len(io_["levels"]) >= 2:
             res.nontrivial.add(("design", json.dumps(spelling_json(c["spelling"]), sort_keys=True),
-                                tuple(io_["levels"]), c["col"]["type"], c["intercept"]))
+                                tuple(io_["levels"]), c["col"]["type"], c["intercept"])
+                               + (("shadowed", json.dumps(c["scope"], sort_keys=True)) if "scope" in c else ()))
         if i_ok and len(res.samples) < 6 and c["spelling"].get("levels") and len(io_["levels"]) >= 3:
             res.samples.append({"formula": design_formula(c)[0], "levels_arg": c["spelling"]["levels"],
                                 "impl": {k: io_[k] for k in ("levels", "matrix", "labels")}})
@@ -946,6 +1208,10 @@ def explore(tier, seed, res=None, replay=None):
         res.evaluations += 1
         res.count("kind:interchange")
         res.count("interchange:terms=%d" % len(c["terms"]))
+        for rel in c.get("numeric_relations", []):
+            res.count("interchange:numeric_term_next_to_numeric:factor:" + rel)
+        if "scope" in c:
+            res.count("interchange:calling_scope:shadowed:" + c["scope"]["where"])
         out = impl_interchange(c)
         b, v = out["base"], out["variant"]
         if "err" in b:
@@ -972,7 +1238,8 @@ def explore(tier, seed, res=None, replay=None):
                                      c["base"]["formula"], c["variant"]["formula"]),
                                  "finding": None})
         res.nontrivial.add(("interchange", c["base"]["formula"], c["variant"]["formula"],
-                            json.dumps(c["variant"]["env"], sort_keys=True)))
+                            json.dumps(c["variant"]["env"], sort_keys=True),
+                            json.dumps(c.get("scope"), sort_keys=True)))
         if len(res.samples) < 8:
             res.samples.append({"base": c["base"]["formula"], "variant": c["variant"]["formula"],
                                 "ranks": ranks})
